@@ -54,7 +54,7 @@ Qed.
    enough for it to finish. *)
 Theorem C15_agree : forall d, nn all_prims nonnull_cert d = true ->
   forall fuel p rf st fo q st',
-  memo_nn A nonnull_cert st -> memo_bd A inp st -> p <= length inp ->
+  memo_nn A nonnull_cert st -> memo_bd A (length inp) st -> p <= length inp ->
   run A prim act cond dirflag inp grammar fuel (FManyTill d FEof) p rf st = (Ok fo q, st') ->
   fst (run A prim act cond dirflag inp grammar fuel (FMany0 d) p rf st) <> Fuel ->
   fst (run A prim act cond dirflag inp grammar fuel (FMany0 d) p rf st) = Ok fo q.
